@@ -61,6 +61,7 @@ type kmerCLICase struct {
 	Sparse    bool   // --sparse
 	MinShared int    // -m
 	MaxCPU    int    // --max-cpu
+	LongOpt   bool   `json:",omitempty"` // --kmer-size / --min-shared-kmers / --reference / --sparse instead of -k / -m / -r / -S
 	Refs      []string
 	Reads     []string
 }
@@ -173,11 +174,16 @@ func checkKmerCLI(c kmerCLICase) error {
 		return nil
 	}
 	args := []string{"--no-progressbar", "--max-cpu", strconv.Itoa(c.MaxCPU), "-k", strconv.Itoa(c.K), "-m", strconv.Itoa(c.MinShared), "-r", refFile}
-	if c.Sparse {
+	if c.LongOpt {
+		args[3], args[5], args[7] = "--kmer-size", "--min-shared-kmers", "--reference"
+	}
+	if c.Sparse && c.LongOpt {
 		args = append(args, "--sparse")
+	} else if c.Sparse {
+		args = append(args, "-S")
 	}
 	args = append(args, readFile)
-	what := fmt.Sprintf("%s %s (effective k=%d; refs=%q reads=%q)", c.Cmd, strings.Join(args[:len(args)-1][2:], " "), k, c.Refs, c.Reads)
+	what := fmt.Sprintf("%s %s (effective k=%d; refs=%q reads=%q)", c.Cmd, strings.Join(args[1:len(args)-1], " "), k, c.Refs, c.Reads)
 	r := run.Cmd(run.Opt{}, c.Cmd, args...)
 	if r.Inconclusive() {
 		evid.Class("timeout_inconclusive", 1)
@@ -337,11 +343,19 @@ func kmerCLIClasses(c kmerCLICase) (bool, []string) {
 	if undecided {
 		cl = append(cl, "cli:-m_in_undecided_zone")
 	}
-	return matched && apart, cl
+	uniq := cl[:0]
+	have := map[string]bool{}
+	for _, x := range cl {
+		if !have[x] {
+			have[x] = true
+			uniq = append(uniq, x)
+		}
+	}
+	return matched && apart, uniq
 }
 
 func genKmerCLI(t *rapid.T, cmd string, k int, sparse bool, threshold bool) kmerCLICase {
-	c := kmerCLICase{Cmd: cmd, K: k, Sparse: sparse, MinShared: 1, MaxCPU: rapid.IntRange(1, 4).Draw(t, "maxcpu")}
+	c := kmerCLICase{Cmd: cmd, K: k, Sparse: sparse, MinShared: 1, MaxCPU: rapid.IntRange(1, 4).Draw(t, "maxcpu"), LongOpt: rapid.Bool().Draw(t, "long_options")}
 	ke := effectiveK(k, sparse)
 	alpha := rapid.SampledFrom([]string{"acgt", "acgt", "acgt", "acgt", "at", "acg"}).Draw(t, "alphabet")
 	nref := rapid.IntRange(1, 4).Draw(t, "nref")
@@ -413,7 +427,7 @@ func TestCLIKmerSweep(t *testing.T) {
 	if !run.Have("obikmersimcount") || !run.Have("obikmermatch") {
 		t.Skip("commands not built")
 	}
-	reps := evid.Pick(2, 10)
+	reps := evid.Pick(4, 24)
 	shard, n := evid.Shard(), evid.NShards()
 	job := 0
 	for _, cmd := range []string{"obikmersimcount", "obikmermatch"} {
@@ -422,7 +436,12 @@ func TestCLIKmerSweep(t *testing.T) {
 				if effectiveK(k, sparse) > 64 {
 					continue
 				}
-				for rep := 0; rep < reps; rep++ {
+				nrep := reps
+				switch effectiveK(k, sparse) {
+				case 2, 3, 31, 32, 33, 63, 64: // a k-mer fills 64 / 128 bits or nearly so; smallest sizes
+					nrep *= 3
+				}
+				for rep := 0; rep < nrep; rep++ {
 					job++
 					if job%n != shard {
 						continue
